@@ -34,6 +34,9 @@ pub enum TypeError {
 
     #[error("Expected a duration for the timeslice (e.g. 1h)")]
     ExpectedDuration,
+
+    #[error("The separator for split must not be empty")]
+    EmptySeparator,
 }
 
 pub trait TypeCheck<O> {
@@ -305,15 +308,28 @@ impl TypeCheck<Box<dyn operator::OperatorBuilder + Send + Sync>>
                 separator,
                 input_column,
                 output_column,
-            } => Ok(Box::new(split::Split::new(
-                separator,
-                input_column
-                    .map(|e| e.type_check(error_builder))
-                    .transpose()?,
-                output_column
-                    .map(|e| e.type_check(error_builder))
-                    .transpose()?,
-            ))),
+            } => {
+                if separator.is_empty() {
+                    let e = TypeError::EmptySeparator;
+
+                    error_builder
+                        .report_error_for(&e)
+                        .with_code_range(self.range, "the separator given with 'on' is empty")
+                        .with_resolution("example: split(field) on \",\"")
+                        .send_report();
+
+                    return Err(e);
+                }
+                Ok(Box::new(split::Split::new(
+                    separator,
+                    input_column
+                        .map(|e| e.type_check(error_builder))
+                        .transpose()?,
+                    output_column
+                        .map(|e| e.type_check(error_builder))
+                        .transpose()?,
+                )))
+            }
             lang::InlineOperator::Timeslice { duration: None, .. } => {
                 Err(TypeError::ExpectedDuration)
             }
